@@ -49,7 +49,8 @@ CONSTANTS Claims,            \* subset of {"c1","c2","c3"} (static attributes in
           OffBefore, OffAfter, \* clock positions around every deadline: milliseconds before it / at or after it
           EA,                \* expireAfter of c1/c3 in seconds (c2: Never)
           LT, RT,            \* launch / registration timeouts (s)
-          TolReady, TolDisk, \* tolerations of the two repair policies (s)
+          TolReady, TolUnk, TolDisk, \* tolerations (s) of the repair policies Ready=False, Ready=Unknown, BadDisk=True
+          UnknownFirst,      \* order of the provider's policy list: Ready=Unknown listed before (TRUE) / after Ready=False
           PoolBg, OtherBg,   \* sets of possible numbers of further nodes in the pool / outside it
           ReadyVals,         \* statuses the Ready condition of a claim's node can take
           MaxBad,            \* at most this many of them start unhealthy
@@ -63,8 +64,14 @@ CONSTANTS Claims,            \* subset of {"c1","c2","c3"} (static attributes in
           GcReady,           \* "check" = code; "ignore" = Node readiness not consulted
           NotFoundAsEmpty,   \* reads whose NotFound-typed failure is taken for an empty answer: {} = code;
                              \* subsets of {"provList", "nodeLookup", "nodeList"} = mutations
+          GcReadOrder,       \* "claimsFirst" = code (NodeClaims are listed, then the provider); "provFirst" = the provider
+                             \* listing is taken first and judged against NodeClaims listed later
+          LiveGate,          \* "registered" = code (liveness stops watching once Registered); "ready" = only once the
+                             \* claim is Ready (Launched, Registered and Initialized)
           LiveSlack,         \* 0 = code; 1 = one millisecond early
           RepairSlack,       \* 0 = code; 1 = one millisecond before the toleration elapsed
+          RepairTolBy,       \* "policy" = code (toleration of the policy matching type and status); "type" = of the first
+                             \* policy with the same condition type
           RepairExtra,       \* 0 = code; 1 = one more unhealthy node tolerated than 20 % rounded up
           RepairScope,       \* "pool" = code; "cluster" = pool claims judged against the whole cluster
           RepairOnListError, \* "abort" = code; "continue" = failed node List read as empty
@@ -78,8 +85,11 @@ view == <<now, claim, node, listed, bg, budget, last>>
 Attr == [c1 |-> [pool |-> "p", ea |-> EA, pid |-> "i1", node |-> "n1", reg |-> TRUE],
          c2 |-> [pool |-> "",  ea |-> -1, pid |-> "i2", node |-> "n2", reg |-> TRUE],
          c3 |-> [pool |-> "p", ea |-> EA, pid |-> "i3", node |-> "n3", reg |-> FALSE]]
-Policies == << [type |-> "Ready", status |-> "False", toleration |-> TolReady],
-               [type |-> "BadDisk", status |-> "True", toleration |-> TolDisk] >>
+\* several policies on one condition type with different statuses and tolerations, in either order, plus another type
+PolRF == [type |-> "Ready", status |-> "False", toleration |-> TolReady]
+PolRU == [type |-> "Ready", status |-> "Unknown", toleration |-> TolUnk]
+PolBD == [type |-> "BadDisk", status |-> "True", toleration |-> TolDisk]
+Policies == IF UnknownFirst THEN <<PolRU, PolRF, PolBD>> ELSE <<PolRF, PolRU, PolBD>>
 BgPNames == <<"bgp01", "bgp02", "bgp03", "bgp04", "bgp05", "bgp06", "bgp07", "bgp08", "bgp09", "bgp10", "bgp11", "bgp12">>
 BgONames == <<"bgo01", "bgo02", "bgo03", "bgo04", "bgo05", "bgo06", "bgo07", "bgo08", "bgo09", "bgo10", "bgo11", "bgo12">>
 PoolLbl(p) == IF p = "" THEN <<>> ELSE (PoolKey :> p)
@@ -95,10 +105,8 @@ InitClaim(c) ==
      launched |-> IF Attr[c].reg THEN "True" ELSE "Unknown",
      registered |-> IF Attr[c].reg THEN "True" ELSE "Unknown",
      providerID |-> IF Attr[c].reg THEN Attr[c].pid ELSE "-",
-     labels |-> PoolLbl(Attr[c].pool), condSince |-> [Launched |-> 0, Registered |-> 0], terminationAt |-> -1,
-     \* dirty: the lifecycle controller has not reconciled this claim yet; its first reconcile persists the conditions it
-     \* initialises (patch + Sleep(1s)), later ones of an unregistered claim change nothing
-     dirty |-> ~Attr[c].reg]
+     initialized |-> IF Attr[c].reg THEN "True" ELSE "Unknown",
+     labels |-> PoolLbl(Attr[c].pool), condSince |-> [Launched |-> 0, Registered |-> 0], terminationAt |-> -1]
 MkNode(name, pid, pool, ready, readySince, bad, badSince, del) ==
     [name |-> name, exists |-> TRUE, deleting |-> del, providerID |-> pid, ready |-> ready, labels |-> PoolLbl(pool),
      conds |-> [Ready |-> ready, BadDisk |-> bad], condSince |-> [Ready |-> readySince, BadDisk |-> badSince]]
@@ -152,47 +160,95 @@ Expire(c, f) ==
 
 \* nodeclaim.garbagecollection: list NodeClaims, provider List, per candidate a Node lookup by provider id, Delete.
 \* lf = the candidates whose Node lookup fails; k = the kind of the failing read(s).
-Gc(f, lf, k) ==
-    LET provCont == GcOnProvListError = "continue" \/ AsEmpty("provList", k)
+\* mid = one environment step that happens BETWEEN the two listing reads of the pass (a schedule; "none" = the pass is
+\* atomic): the first listing is answered from the state before it, everything else from the state after it.
+MidNone == [a |-> "none"]
+MidSteps == {MidNone} \cup {[a |-> "InstanceVanishes", c |-> c] : c \in Claims} \cup {[a |-> "UserDelete", c |-> c] : c \in Claims}
+            \cup {[a |-> "NodeGone", c |-> c] : c \in Claims}
+            \cup {[a |-> "Join", c |-> c, s |-> st] : c \in Claims, st \in ReadyVals}
+            \cup {[a |-> "NodeReady", c |-> c, s |-> st] : c \in Claims, st \in ReadyVals}
+JoinedClaim(c) == [claim[c] EXCEPT !.launched = "True", !.registered = "True", !.providerID = Attr[c].pid,
+                                   !.condSince = [Launched |-> Stamp, Registered |-> Stamp]]
+JoinedNode(c, st) == MkNode(Attr[c].node, Attr[c].pid, Attr[c].pool, st, Stamp, "False", Stamp, FALSE)
+CanJoin(c) == claim[c].exists /\ ~claim[c].deleting /\ claim[c].launched # "True"
+MidEnabled(m) ==
+    \/ m.a = "none"
+    \/ (m.a = "InstanceVanishes" /\ claim[m.c].providerID \in listed)
+    \/ (m.a = "UserDelete" /\ claim[m.c].exists /\ ~claim[m.c].deleting)
+    \/ (m.a = "NodeGone" /\ node[m.c].exists)
+    \/ (m.a = "Join" /\ CanJoin(m.c))
+    \/ (m.a = "NodeReady" /\ node[m.c].exists /\ node[m.c].ready # m.s)
+\* the state after the mid step, as a record [claim, node, listed]
+AfterMid(m) ==
+    [claim |-> IF m.a = "UserDelete" THEN [claim EXCEPT ![m.c].deleting = TRUE]
+               ELSE IF m.a = "Join" THEN [claim EXCEPT ![m.c] = JoinedClaim(m.c)] ELSE claim,
+     node |-> IF m.a = "NodeGone" THEN [node EXCEPT ![m.c] = NoNode]
+              ELSE IF m.a = "Join" THEN [node EXCEPT ![m.c] = JoinedNode(m.c, m.s)]
+              ELSE IF m.a = "NodeReady" THEN [node EXCEPT ![m.c] = [@ EXCEPT !.ready = m.s, !.conds.Ready = m.s, !.condSince.Ready = Stamp]]
+              ELSE node,
+     listed |-> IF m.a = "InstanceVanishes" THEN listed \ {claim[m.c].providerID}
+                ELSE IF m.a = "Join" THEN listed \cup {Attr[m.c].pid} ELSE listed]
+NodesOfState(nd) == [n \in {Attr[c].node : c \in {x \in Claims : nd[x].exists}} |-> nd[NodeOwner[n]]]
+                    @@ BgFun(BgPNames, "p", bg.pt, bg.pu, bg.pd) @@ BgFun(BgONames, "", bg.ot, bg.ou, bg.od)
+Gc(f, lf, k, mid) ==
+    LET S1 == AfterMid(mid)
+        \* which state answers which read
+        claimsAt == IF GcReadOrder = "claimsFirst" THEN claim ELSE S1.claim
+        listedAt == IF GcReadOrder = "claimsFirst" THEN S1.listed ELSE listed
+        provCont == GcOnProvListError = "continue" \/ AsEmpty("provList", k)
         abort == f = "claimList" \/ (f = "provList" /\ ~provCont)
-        seen == IF f = "provList" THEN {} ELSE listed
-        cands == {c \in Claims : claim[c].exists /\ claim[c].registered = "True" /\ ~claim[c].deleting
-                                 /\ claim[c].providerID \notin seen}
-        all == AllNodes
-        nodeReady(c) == \E n \in DOMAIN all : all[n].providerID = claim[c].providerID /\ all[n].ready = "True"
+        seen == IF f = "provList" THEN {} ELSE listedAt
+        cands == {c \in Claims : claimsAt[c].exists /\ claimsAt[c].registered = "True" /\ ~claimsAt[c].deleting
+                                 /\ claimsAt[c].providerID \notin seen}
+        all == NodesOfState(S1.node)
+        nodeReady(c) == \E n \in DOMAIN all : all[n].providerID = claimsAt[c].providerID /\ all[n].ready = "True"
         del == IF abort THEN {}
                ELSE {c \in cands : IF c \in lf THEN (GcOnLookupError = "delete" \/ AsEmpty("nodeLookup", k))
                                    ELSE (GcReady = "ignore" \/ ~nodeReady(c))}
         delOk == IF f = "delete" THEN {} ELSE del
+        \* effective deletes: the claim is still there and not yet deleting when the Delete arrives
+        eff == {c \in delOk : S1.claim[c].exists /\ ~S1.claim[c].deleting}
     IN /\ f \in {"none", "claimList", "provList", "delete"}
+       /\ MidEnabled(mid)
+       /\ (mid.a # "none" => (f = "none" /\ lf = {} /\ budget.env < MaxEnv))
        /\ (lf # {} => (f \in {"none", "delete"} /\ lf \subseteq cands))
        /\ (k = "generic" \/ f \in {"claimList", "provList"} \/ lf # {})
        /\ (f = "delete" => del # {})
-       /\ Acts(del # {} \/ f # "none" \/ lf # {})
+       /\ Acts(del # {} \/ f # "none" \/ lf # {} \/ mid.a # "none")
        /\ ((f = "none" /\ lf = {}) \/ budget.faults < MaxFaults)
-       /\ budget' = IF f = "none" /\ lf = {} THEN budget ELSE [budget EXCEPT !.faults = @ + 1]
-       /\ MarkDeleted(delOk)
-       /\ last' = IF delOk = {} THEN NoLast
+       /\ budget' = [faults |-> IF f = "none" /\ lf = {} THEN budget.faults ELSE budget.faults + 1,
+                     env |-> IF mid.a = "none" THEN budget.env ELSE budget.env + 1]
+       /\ claim' = [c \in Claims |-> IF c \in eff THEN [S1.claim[c] EXCEPT !.deleting = TRUE] ELSE S1.claim[c]]
+       /\ node' = S1.node /\ listed' = S1.listed
+       \* the provider no longer lists the instance: it was absent from the listing the pass read AND it is absent now
+       /\ last' = IF eff = {} THEN NoLast
                   ELSE [actor |-> "gc",
-                        ok |-> \A c \in delOk : G_C16_GarbageCollection(claim[c], f # "provList", listed, c \notin lf, all)]
-       /\ UNCHANGED <<now, node, listed, bg>>
-       /\ Hist([a |-> "Gc", f |-> f, lf |-> lf, k |-> k, del |-> delOk])
+                        ok |-> \A c \in eff : G_C16_GarbageCollection(S1.claim[c], f # "provList", listedAt \cup S1.listed,
+                                                                     c \notin lf, all)]
+       /\ UNCHANGED <<now, bg>>
+       /\ Hist([a |-> "Gc", f |-> f, lf |-> lf, k |-> k, mid |-> mid, del |-> eff])
 
-\* nodeclaim.lifecycle liveness (bound through Lifecycle.tla's driver as well): Get NodePool, Delete.
+\* nodeclaim.lifecycle on a launched claim: the initialization step (a Registered claim whose Node is Ready becomes
+\* Initialized), then the liveness check (bound through Lifecycle.tla's driver as well): Get NodePool, Delete.
 \* The NodePool Get only feeds the pool's health condition: a NotFound answer is ignored, any other error ends the reconcile.
+\* (The harness runs this controller with a clock whose Sleep returns at once, so the reconcile does not move time.)
 Live(c, f, k) ==
-    LET cl == claim[c]
+    LET cl0 == claim[c]
+        nd == node[c]
+        canInit == cl0.registered = "True" /\ cl0.initialized # "True" /\ nd.exists /\ nd.ready = "True"
+        cl == IF canInit THEN [cl0 EXCEPT !.initialized = "True"] ELSE cl0
+        ready == cl.launched = "True" /\ cl.registered = "True" /\ cl.initialized = "True"
+        gate == IF LiveGate = "registered" THEN cl.registered = "True" ELSE ready
         lDue == cl.launched # "True" /\ Clock("live") + LiveSlack >= Ms(cl.condSince.Launched + LT)
         rDue == cl.launched = "True" /\ Clock("live") + LiveSlack >= Ms(cl.condSince.Registered + RT)
-        act == cl.exists /\ ~cl.deleting /\ cl.registered # "True" /\ (lDue \/ rDue)
+        act == cl.exists /\ ~cl.deleting /\ ~gate /\ (lDue \/ rDue)
         ok == act /\ (f = "none" \/ (f = "poolGet" /\ k = "notfound"))
-    IN /\ cl.exists /\ ~cl.deleting /\ cl.registered # "True"
+    IN /\ cl.exists /\ ~cl.deleting
        /\ f \in {"none", "poolGet", "delete"} /\ KindOk(f, k, {"poolGet"})
-       /\ (f = "none" \/ act) /\ Fault(f) /\ Spend(f) /\ Acts(act \/ cl.dirty)
-       /\ claim' = [claim EXCEPT ![c] = [@ EXCEPT !.deleting = @ \/ ok, !.dirty = FALSE]]
-       /\ now' = IF cl.dirty THEN now + 1000 ELSE now      \* Sleep(1s) after the status patch
+       /\ (f = "none" \/ act) /\ Fault(f) /\ Spend(f) /\ Acts(act \/ canInit)
+       /\ claim' = [claim EXCEPT ![c] = [cl EXCEPT !.deleting = @ \/ ok]]
        /\ last' = IF ok THEN [actor |-> "live", ok |-> G_C16_LivenessMs(cl, now, LT, RT)] ELSE NoLast
-       /\ UNCHANGED <<node, listed, bg>>
+       /\ UNCHANGED <<now, node, listed, bg>>
        /\ Hist([a |-> "Live", c |-> c, f |-> f, k |-> k, del |-> IF ok THEN {c} ELSE {}])
 
 \* node.health: NodeClaim lookup by provider id, unhealthy condition + toleration, node List of the pool / cluster,
@@ -204,7 +260,11 @@ Repair(c, f, k) ==
         cl == claim[c]
         found == cl.exists /\ cl.providerID = n.providerID
         m == MatchIdx(n)
-        due == m # {} /\ Clock("repair") + RepairSlack >= Ms(Min({TermTime(n, i) : i \in m}))
+        \* the matching policy whose toleration elapses first
+        pick == CHOOSE i \in m : \A j \in m : TermTime(n, i) <= TermTime(n, j)
+        tol == IF RepairTolBy = "policy" THEN Policies[pick].toleration
+               ELSE Policies[Min({j \in DOMAIN Policies : Policies[j].type = Policies[pick].type})].toleration
+        due == m # {} /\ Clock("repair") + RepairSlack >= Ms(n.condSince[Policies[pick].type] + tol)
         all == AllNodes
         scope == IF RepairScope = "cluster" \/ ~HasPool(cl) THEN DOMAIN all
                  ELSE {x \in DOMAIN all : HasPool(all[x]) /\ all[x].labels[PoolKey] = cl.labels[PoolKey]}
@@ -236,7 +296,8 @@ Deadlines ==
     {Ms(claim[c].created + claim[c].expireAfter) : c \in {x \in Claims : claim[x].exists /\ ~claim[x].deleting /\ claim[x].expireAfter >= 0}}
     \cup UNION {{Ms(TermTime(node[c], i)) : i \in MatchIdx(node[c])} : c \in {x \in Claims : node[x].exists}}
     \cup UNION {{Ms(claim[c].condSince.Launched + LT), Ms(claim[c].condSince.Registered + RT)} :
-                c \in {x \in Claims : claim[x].exists /\ ~claim[x].deleting /\ claim[x].registered # "True"}}
+                c \in {x \in Claims : claim[x].exists /\ ~claim[x].deleting
+                                       /\ ~(claim[x].registered = "True" /\ claim[x].initialized = "True")}}
 Tick(to) == /\ to > now /\ to <= Ms(MaxNow)
             /\ now' = to /\ last' = NoLast
             /\ UNCHANGED <<claim, node, listed, bg, budget>>
@@ -280,18 +341,26 @@ EnvLaunched(c) ==
     /\ claim' = [claim EXCEPT ![c] = [@ EXCEPT !.launched = "True", !.providerID = Attr[c].pid, !.condSince.Launched = Stamp]]
     /\ listed' = listed \cup {Attr[c].pid}
     /\ UNCHANGED <<now, node, bg>> /\ Hist([a |-> "Launched", c |-> c])
-EnvRegistered(c) ==
+\* the kubelet registers the Node (reporting Ready status s) and the lifecycle controller marks the claim Registered
+EnvRegistered(c, st) ==
     /\ claim[c].exists /\ ~claim[c].deleting /\ claim[c].launched = "True" /\ claim[c].registered # "True" /\ EnvStep
     /\ claim' = [claim EXCEPT ![c] = [@ EXCEPT !.registered = "True", !.condSince.Registered = Stamp]]
-    /\ node' = [node EXCEPT ![c] = MkNode(Attr[c].node, Attr[c].pid, Attr[c].pool, "True", Stamp, "False", Stamp, FALSE)]
-    /\ UNCHANGED <<now, listed, bg>> /\ Hist([a |-> "Registered", c |-> c])
+    /\ node' = [node EXCEPT ![c] = JoinedNode(c, st)]
+    /\ UNCHANGED <<now, listed, bg>> /\ Hist([a |-> "Registered", c |-> c, s |-> st])
+\* launch and registration in one go
+EnvJoin(c, st) ==
+    /\ CanJoin(c) /\ EnvStep
+    /\ claim' = [claim EXCEPT ![c] = JoinedClaim(c)] /\ node' = [node EXCEPT ![c] = JoinedNode(c, st)]
+    /\ listed' = listed \cup {Attr[c].pid}
+    /\ UNCHANGED <<now, bg>> /\ Hist([a |-> "Join", c |-> c, s |-> st])
 \* the reapers keep no in-memory state: a restart re-instantiates the controllers
 Restart == /\ EnvStep /\ UNCHANGED <<now, claim, node, listed, bg>> /\ Hist([a |-> "Restart"])
 
 \* one named disjunct per action, so that TLC's coverage reports each of them
 Bound == Len(h) < MaxLen
 DoExpire == Bound /\ \E c \in Claims, f \in {"none", "delete"} : Expire(c, f)
-DoGc == Bound /\ \E f \in {"none", "claimList", "provList", "delete"}, lf \in {{}} \cup {{c} : c \in Claims} \cup {Claims}, k \in Kinds : Gc(f, lf, k)
+DoGc == Bound /\ \E f \in {"none", "claimList", "provList", "delete"}, lf \in {{}} \cup {{c} : c \in Claims} \cup {Claims}, k \in Kinds,
+                     mid \in MidSteps : Gc(f, lf, k, mid)
 DoLive == Bound /\ \E c \in Claims, f \in {"none", "poolGet", "delete"}, k \in Kinds : Live(c, f, k)
 DoRepair == Bound /\ \E c \in Claims, f \in {"none", "claimList", "nodeList", "annotate", "delete"}, k \in Kinds : Repair(c, f, k)
 DoTick == Bound /\ \E d \in Deadlines, o \in Offsets : Tick(d + o)
@@ -300,13 +369,14 @@ DoNodeGone == Bound /\ \E c \in Claims : NodeGone(c)
 DoNodeTerminating == Bound /\ \E c \in Claims : NodeTerminating(c)
 DoUserDelete == Bound /\ \E c \in Claims : UserDelete(c)
 DoLaunched == Bound /\ \E c \in Claims : EnvLaunched(c)
-DoRegistered == Bound /\ \E c \in Claims : EnvRegistered(c)
+DoRegistered == Bound /\ \E c \in Claims, st \in ReadyVals : EnvRegistered(c, st)
+DoJoin == Bound /\ \E c \in Claims, st \in ReadyVals : EnvJoin(c, st)
 DoNodeReady == Bound /\ \E c \in Claims, s \in ReadyVals : NodeReady(c, s)
 DoDiskBad == Bound /\ \E c \in Claims, s \in {"True", "False"} : DiskBad(c, s)
 DoBgFlip == Bound /\ \E sc \in {"p", "o"}, d \in {-1, 0, 1} : BgFlip(sc, d)
 DoRestart == Bound /\ Restart
 Next == DoExpire \/ DoGc \/ DoLive \/ DoRepair \/ DoTick \/ DoInstanceVanishes \/ DoNodeGone \/ DoNodeTerminating \/ DoUserDelete
-        \/ DoLaunched \/ DoRegistered \/ DoNodeReady \/ DoDiskBad \/ DoBgFlip \/ DoRestart
+        \/ DoLaunched \/ DoRegistered \/ DoJoin \/ DoNodeReady \/ DoDiskBad \/ DoBgFlip \/ DoRestart
 Spec == Init /\ [][Next]_vars
 
 \* ---------------------------------------------------------------- properties of the closed model
@@ -321,12 +391,11 @@ Inv_C16_Repair == last.actor = "repair" => last.ok
 \* a claim whose expiry is disabled and whose node is healthy, Ready and listed is never reaped
 Act_C16_NoTriggerNoReap ==
     [][ \A c \in Claims :
-          (/\ claim[c].exists /\ ~claim[c].deleting /\ claim'[c].deleting
-           /\ h' # h /\ h'[Len(h')].a \in {"Expire", "Gc", "Live", "Repair"})
+          (h' # h /\ h'[Len(h')].a \in {"Expire", "Gc", "Live", "Repair"} /\ c \in h'[Len(h')].del)
           => \/ (claim[c].expireAfter >= 0 /\ now >= Ms(claim[c].created + claim[c].expireAfter))
-             \/ claim[c].registered # "True"
-             \/ claim[c].providerID \notin listed
-             \/ (node[c].exists /\ Unhealthy(node[c], Policies)) ]_vars
+             \/ claim'[c].registered # "True"
+             \/ claim'[c].providerID \notin listed'     \* (a pass with a mid step: the state the delete was issued in)
+             \/ (node'[c].exists /\ Unhealthy(node'[c], Policies)) ]_vars
 
 GenPrint == (Len(h) < MaxLen /\ ENABLED Next) \/ PrintT(<<"BEH", ToJson(h)>>)
 =============================================================================
